@@ -23,11 +23,22 @@ CASES = [
 ]
 
 
-def one(name, kw, what, stream_seed, global_seed, zero_momentum=False):
+def one(name, kw, what, stream_seed, global_seed, zero_momentum=False, warmup_stream=None):
     from infretis.classes.path import Path
     from infretis.classes.system import System
 
     eng, conf = engines.BUILDERS[name](**kw)
+    if warmup_stream is not None:
+        # an earlier job on the SAME engine object (engines live as long as the worker)
+        _job(eng, conf, what, warmup_stream, global_seed, zero_momentum)
+    return _job(eng, conf, what, stream_seed, global_seed, zero_momentum)
+
+
+def _job(eng, conf, what, stream_seed, global_seed, zero_momentum):
+    from infretis.classes.path import Path
+    from infretis.classes.system import System
+
+    name = eng.name if hasattr(eng, "name") and isinstance(eng.name, str) else ""
     wd = scratch.mkdtemp("c07e")
     try:
         eng.exe_dir = wd
@@ -80,6 +91,13 @@ def run_part(ctx):
                 ctx.violation(f"engine:{tag}:ignores-job-stream",
                               f"{tag} zero_momentum={zm}: two different job streams give identical output",
                               dict(kind="engine", name=name, kw=kw, what=what, zm=zm))
+            # successive jobs on one engine object: the second job's output is a function of its own stream only
+            d = one(name, kw, what, 11, 1, zm, warmup_stream=12)
+            n += 1
+            if d != a:
+                ctx.violation(f"engine:{tag}:depends-on-previous-job",
+                              f"{tag} zero_momentum={zm}: a job's output changes when another job ran before it on the same engine object",
+                              dict(kind="engine", name=name, kw=kw, what=what, zm=zm))
     ctx.set("engine_runs", n)
     ctx.coverage["evaluations"] = ctx.coverage.get("evaluations", 0) + n
     ctx.assume("engine part: LAMMPS/CP2K/GROMACS propagate (external programs) is covered by C12's fake processes; GROMACS' own velocity generation is outside the property")
@@ -94,4 +112,7 @@ def replay(data):
         return [(f"engine:{tag}:depends-on-global-rng", "outputs differ")]
     if a == c:
         return [(f"engine:{tag}:ignores-job-stream", "outputs equal")]
+    d = one(data["name"], data["kw"], data["what"], 11, 1, data["zm"], warmup_stream=12)
+    if d != a:
+        return [(f"engine:{tag}:depends-on-previous-job", "outputs differ")]
     return []
